@@ -42,6 +42,14 @@ class ROProp(tg.Obj):
         return 'ROProp(%s)' % ', '.join('%s=%r' % kv for kv in sorted(self.__dict__.items()))
 
 
+class DictSub(dict):
+    """an ordinary dict subclass: its instances have a __dict__ (glom's object duck type matches them too)"""
+
+
+class ListSub(list):
+    """an ordinary list subclass with an instance __dict__"""
+
+
 def build(recipe):
     b = tg.Built()
     b.obj = _build(recipe, b)
@@ -64,8 +72,8 @@ def _build(r, b):
         for k, v in r[1]:
             c.__dict__[k] = _build(v, b)
         return c
-    if tag in ('dict', 'odict', 'rdict'):
-        c = {'dict': dict, 'odict': tg.OrderedDict, 'rdict': tg.RecDict}[tag]()
+    if tag in ('dict', 'odict', 'rdict', 'dsub'):
+        c = {'dict': dict, 'odict': tg.OrderedDict, 'rdict': tg.RecDict, 'dsub': DictSub}[tag]()
         nid = len(b.nodes)
         b.nodes.append(c)
         for k, v in r[1]:
@@ -73,8 +81,8 @@ def _build(r, b):
         if tag == 'rdict':
             c._log, c._nid = b.log, nid
         return c
-    if tag in ('list', 'rlist'):
-        c = {'list': list, 'rlist': tg.RecList}[tag]()
+    if tag in ('list', 'rlist', 'lsub'):
+        c = {'list': list, 'rlist': tg.RecList, 'lsub': ListSub}[tag]()
         nid = len(b.nodes)
         b.nodes.append(c)
         for v in r[1]:
@@ -113,12 +121,12 @@ def gen_target(draw, depth=3):
             return atom()
         n = draw(st.integers(0, 3))
         if r < 52:
-            tag = draw(st.sampled_from(['dict', 'rdict', 'rdict', 'odict', 'fdict'])) if r < 30 else \
-                draw(st.sampled_from(['dict', 'rdict', 'odict']))
+            tag = draw(st.sampled_from(['dict', 'rdict', 'rdict', 'odict', 'fdict', 'dsub'])) if r < 30 else \
+                draw(st.sampled_from(['dict', 'rdict', 'odict', 'dsub']))
             ks = draw(st.lists(st.sampled_from(KEYS), min_size=n, max_size=n, unique_by=repr))
             return [tag, [[k, node(d - 1)] for k in ks]]
         if r < 74:
-            return [draw(st.sampled_from(['list', 'rlist'])), [node(d - 1) for _ in range(n)]]
+            return [draw(st.sampled_from(['list', 'rlist', 'rlist', 'lsub'])), [node(d - 1) for _ in range(n)]]
         if r < 80:
             return ['tuple', [node(d - 1) for _ in range(n)]]
         tag = draw(st.sampled_from(['obj', 'robj', 'robj', 'fobj', 'roprop'])) if r < 90 else \
